@@ -206,6 +206,11 @@ type derivRoles struct {
 type roleTerms struct {
 	Key, Counter, Digits, Algo string
 	CounterParam               *ssa.Parameter
+	// AltCode recognises a returned code that is not produced by a module renderer f(number, digits):
+	// it returns the number term and the length term.
+	AltCode func(alt *Term) (num, digits *Term, ok bool)
+	// ModOK judges a modulus term that is not simply the table entry ("" = acceptable).
+	ModOK func(mod, table *Term) string
 }
 
 func (r derivRoles) terms(der *ssa.Function) roleTerms {
@@ -312,7 +317,7 @@ func checkModTable(c *Check, w *World, rule, tableName string, lo, hi int) []*bi
 // checkTruncation (R.7): the code number is (sum[o..o+3] big-endian) & 0x7fffffff with o = sum[len-1] & 0x0f,
 // reduced modulo the modulus without narrowing.
 // numT is the term of the number handed to the renderer, expressed over sumT (term of the HMAC output) and modT.
-func checkTruncation(c *Check, w *World, rule, fn string, numT, sumT, modT *Term, pos string) {
+func checkTruncation(c *Check, w *World, rule, fn string, numT, sumT, modT *Term, pos string, modOK func(mod, table *Term) string) {
 	t := numT
 	// strip value-changing-free outer conversion to uint32 (the value is < 2^31 after the modulo)
 	if t.Op == "conv" && (t.Sym == "uint32" || t.Sym == "uint64" || t.Sym == "int" || t.Sym == "int64") {
@@ -323,7 +328,13 @@ func checkTruncation(c *Check, w *World, rule, fn string, numT, sumT, modT *Term
 		return
 	}
 	val, mod := t.Args[0], t.Args[1]
-	if mod.String() != modT.String() {
+	if mod.String() != modT.String() && modOK != nil {
+		if why := modOK(mod, modT); why != "" {
+			c.Bad(rule, fn, "reduction-modulus", why, pos)
+		} else {
+			c.OK(rule, fn, "reduction-modulus", "reduced modulo the table entry or an equivalent power of ten, unnarrowed", pos)
+		}
+	} else if mod.String() != modT.String() {
 		if mod.ContainsStr(modT.String()) && mod.Op == "conv" {
 			c.Bad(rule, fn, "reduction-modulus", "the modulus passes through a narrowing conversion ("+mod.Sym+") before the reduction: 10^10 does not fit and 10-digit codes are reduced by a wrong modulus", pos)
 		} else {
